@@ -53,6 +53,10 @@ def relayout(Aq, layout):
         return np.asfortranarray(Aq)
     if layout == "T":
         return np.ascontiguousarray(Aq.T).T
+    if layout == "ro":  # read-only memory (np.load(mmap_mode='r'), np.frombuffer, broadcast views, ...)
+        B = Aq.copy()
+        B.setflags(write=False)
+        return B
     if layout == "view":
         big = np.zeros(tuple(2 * d + 1 for d in Aq.shape), dtype=Aq.dtype)
         sl = tuple(slice(1, None, 2) for _ in Aq.shape)
@@ -67,11 +71,12 @@ def relayout(Aq, layout):
 # the input classes that independently seeded changes needed in order to manifest (DESIGN section 11).
 def xf_names(m, n, hermitian=False):
     names = [f"cm:{G.mask_name(k)}" for k in range(1, 15)]
-    names += ["equalmod", "constant", "rowgraded", "colgraded", "circulant_q", "toeplitz_q", "checker", "lay:F", "lay:T", "lay:view"]
+    names += ["equalmod", "constant", "rowgraded", "colgraded", "circulant_q", "toeplitz_q", "checker", "lay:F", "lay:T", "lay:view", "lay:ro",
+              "negzero_col", "negated_checker", "nearcol"]
     if m == n:
-        names += [f"sp:{k}" for k in G.SPECIAL_KINDS]
+        names += [f"sp:{k}" for k in G.SPECIAL_KINDS] + ["hermoff_qdiag"]
     if hermitian:
-        names = [x for x in names if x not in ("rowgraded", "colgraded", "toeplitz_q")] + ["congraded"]
+        names = [x for x in names if x not in ("rowgraded", "colgraded", "toeplitz_q", "negzero_col", "nearcol", "hermoff_qdiag")] + ["congraded"]
         names = [x for x in names if not x.startswith("sp:") or x[3:] in ("exchange", "ones", "hadamard_like", "path_laplacian")]
     return names
 
@@ -131,6 +136,29 @@ def xf_build(name, m, n, fill, hermitian=False):
         for i in range(m):
             for j in range(n):
                 A[i, j] = c[i - j + n - 1]
+    elif name == "negzero_col":  # an exactly-zero column whose zeros carry a negative sign bit (column * -0.0 ... or a negated matrix)
+        A = base.copy()
+        A[:, min(1, n - 1)] = -0.0
+    elif name == "negated_checker":
+        A = base.copy()
+        for i in range(m):
+            for j in range(n):
+                if (i + j) % 2:
+                    A[i, j] = 0.0
+        A = -A  # zeros become -0.0
+        if hermitian:
+            A = _hermitize(A) if False else A  # negation keeps Hermitian symmetry
+    elif name == "nearcol":  # every column a right multiple of column 0 plus a 2^-17 relative perturbation: full rank, cond ~ 1e5
+        A = base.copy()
+        for j in range(1, n):
+            q = fill.dyadic((4,), bits=2, lo=-6, hi=6)
+            if not q.any():
+                q[0] = 1.0
+            A[:, j] = O.qmul(A[:, 0], np.broadcast_to(q, (m, 4))) + np.ldexp(base[:, j], -17)
+    elif name == "hermoff_qdiag":  # Hermitian off-diagonal part, quaternion (non-real) diagonal: NOT Hermitian, a legal general matrix
+        A = _hermitize(base)
+        for i in range(n):
+            A[i, i] = base[i, i] + np.array([0.0, 0.5, -0.25 * (i + 1), 1.0])
     elif name == "checker":  # exact zeros on a checkerboard
         A = base.copy()
         for i in range(m):
